@@ -1312,7 +1312,7 @@ Lemma draw_interrupted_ok c s cols rows content cursor toks s' :
   s_resized s = false ->
   draw_screen c s cols rows content cursor false false = Ok (toks, s') ->
   exists s'', draw_screen c s cols rows content cursor false true = Ok ((if s_g1 s then [] else [TG1]), s'')
-    /\ s_buf s'' = [] /\ s_resized s'' = true /\ s_ru s'' = s_ru s' /\ s_g1 s'' = true.
+    /\ s_buf s'' = [] /\ s_resized s'' = true /\ s_ru s'' = s_ru s /\ s_cy s'' = s_cy s /\ s_g1 s'' = true.
 Proof.
   intros Hres. unfold draw_screen. destruct (negb (rows =? zlen content)); [discriminate|].
   rewrite !andb_false_r. rewrite Hres.
@@ -1368,7 +1368,7 @@ Proof.
     destruct (draw_paints_lemma c s t _ _ content cursor Hc HS eq_refl eq_refl Hcan Hcur)
       as (toks0 & s0 & E & _ & HS0 & _).
     assert (Hres : s_resized s = false) by apply HS.
-    destruct (draw_interrupted_ok c s _ _ content cursor toks0 s0 Hres E) as (s2 & E2 & B1 & B2 & B3 & B4).
+    destruct (draw_interrupted_ok c s _ _ content cursor toks0 s0 Hres E) as (s2 & E2 & B1 & B2 & B3 & B3' & B4).
     rewrite E2 in Hd. inversion Hd; subst toks s'. clear Hd.
     destruct HS as (Sru & Sres & _ & Sirm & Sscr & Sibm & Sso & Sg1 & Sbce & _).
     destruct HS0 as (Z1 & _).
